@@ -334,7 +334,7 @@ def main(prop: str, module: str, worker: Callable[[Ctx], None], *, level: str = 
         with open(os.path.join(evdir, f"{prop}.json"), "w") as fh:
             json.dump(ev, fh, indent=1, default=str)
     summary = {k: v for k, v in coverage["monitor_counters"].items()}
-    print(f"{prop} tier={a.tier} seed={seed} evaluations={res.evaluations} distinct_nontrivial={len(res.distinct)} "
+    print(f"{prop} tier={a.tier} seed={seed} evaluations={ev['coverage']['evaluations']} distinct_nontrivial={ev['coverage']['distinct_nontrivial']} "
           f"wall={ev['wall_s']}s counters={json.dumps(summary)[:1500]}")
     if unlisted:
         sys.exit(1)
